@@ -13,7 +13,7 @@ func histProfile(name string, over map[string]int, f func(p *Profile)) *Profile 
 func histSpec(id string, prof *Profile, rule string, nt func(res *Result) bool) *propSpec {
 	return &propSpec{ID: id, Rule: rule, NonTrivial: nt,
 		Gen: func(seed uint64, tier string) *Scenario {
-			if (id == "C02" || id == "C04") && seed%12 == 5 {
+			if (id == "C02" || id == "C04") && seed%12 == 5 || id == "C11" && seed%10 == 3 {
 				// backpressure: a member stops reading while relays and its own answers pile up
 				// (socket window, then the send queue of 512, then the broadcasters), then
 				// resumes: everything must arrive exactly once, in order
